@@ -135,7 +135,7 @@ def add_e2e_suite(c, samples):
 
 
 def main(tier=None):
-    c = Check("C16", ["Wasp.Properties.C16"], tier)
+    c = Check("C16", ["Wasp.Properties.C16", "Wasp.Properties.C16Lit"], tier)
     c.build()
     rng = c.rng
     samples = []
